@@ -79,6 +79,7 @@ class Runner:
             return i
         self.w.eio.generate_id = gen
         self._install_handlers()
+        self.fresh_slots = self.graph_slots()
 
     # ---- handlers
     def _kind(self, ev):
@@ -432,46 +433,84 @@ class Runner:
     def connected(self):
         """{(tid, ns): sid name} as the manager sees it"""
         out = {}
-        for ns, rooms in self.sio.manager.rooms.items():
-            for sid, eio in rooms.get(None, {}).items():
+        m = self.sio.manager
+        for ns in list(m.get_namespaces()):
+            for sid, eio in list(m.get_participants(ns, None)):
                 out[(eio, ns)] = self.names.name(sid)
         return out
 
+    # ---- model-free introspection: walks the object graph, names no attribute of the library
+    def _walk(self):
+        """yields (path, value) for every key / element / attribute value reachable from the server through
+        containers and through objects defined by socketio / engineio / bidict"""
+        seen = set()
+        stack = [('server', self.sio)]
+        while stack:
+            path, o = stack.pop()
+            if isinstance(o, (str, bytes, int, float, bool, type(None))):
+                yield path, o
+                continue
+            if id(o) in seen:
+                continue
+            seen.add(id(o))
+            if isinstance(o, dict):
+                for k, v in list(o.items()):
+                    if type(v).__name__ in ('Socket', 'AsyncSocket') and getattr(v, 'closed', False):
+                        continue            # engine.io drops closed sockets lazily; not the server's state
+                    yield path + '{key}', k
+                    stack.append((path + '[%r]' % (k,), v))
+                    if not isinstance(k, (str, int, float, bool, type(None))):
+                        stack.append((path + '{key}', k))
+            elif isinstance(o, (list, tuple, set, frozenset)):
+                for i, v in enumerate(list(o)):
+                    stack.append((path + '[%d]' % i, v))
+            elif isinstance(o, (str, bytes, int, float, bool, type(None))):
+                yield path, o
+            else:
+                mod = (getattr(type(o), '__module__', '') or '').split('.')[0]
+                if mod in ('socketio', 'engineio', 'bidict'):
+                    if type(o).__name__ in ('Socket', 'AsyncSocket') and getattr(o, 'closed', False):
+                        continue            # engine.io drops closed sockets lazily; not the server's state
+                    if mod == 'bidict':
+                        try:
+                            stack.append((path, dict(o)))
+                        except Exception:   # noqa
+                            pass
+                    elif hasattr(o, '__dict__'):
+                        for k, v in list(vars(o).items()):
+                            if k in ('logger',):
+                                continue
+                            stack.append((path + '.' + k, v))
+
     def mentions(self, t, sids=()):
-        """where the server still refers to transport `t` or to any of `sids` (real ids)"""
-        m = self.sio.manager
-        out = []
-        for ns, rooms in m.rooms.items():
-            for room, bd in rooms.items():
-                for sid, eio in bd.items():
-                    if eio == t or sid in sids:
-                        out.append('rooms[%s][%s]' % (ns, room))
-        for ns, lst in m.pending_disconnect.items():
-            if any(x in sids for x in lst):
-                out.append('pending_disconnect[%s]' % ns)
-        for name in ('callbacks', 'ack_counters'):
-            d = getattr(m, name, {})
-            if any(x in sids for x in d):
-                out.append(name)
-        if t in self.sio.environ:
-            out.append('environ')
-        if t in self.sio._binary_packet:
-            out.append('_binary_packet')
-        return out
+        """where the server still refers to transport `t` or to any of the session ids `sids`"""
+        want = set(sids) | {t}
+        out = set()
+        for path, v in self._walk():
+            if isinstance(v, str) and v in want:
+                out.add(path.split('[')[0].split('{')[0])
+        return sorted(out)
 
     def sids_of(self, t):
+        """session ids the server associates with transport t (public queries only)"""
         out = set()
-        for ns, rooms in self.sio.manager.rooms.items():
-            for sid, eio in rooms.get(None, {}).items():
-                if eio == t:
-                    out.add(sid)
+        for (eio, ns), name in self.connected().items():
+            if eio == t:
+                out.add(self.names.real(name))
         return out
 
+    def graph_slots(self):
+        """number of container entries (dict items, list/set/tuple elements) reachable from the server; scalar
+        attributes of objects are not counted (an attribute set on first use is not per-client state)"""
+        n = 0
+        for path, _v in self._walk():
+            if path.endswith(']') or path.endswith('{key}'):
+                n += 1
+        return n
+
     def residue(self):
-        m = self.sio.manager
-        return {'rooms': len(m.rooms), 'pending': len(m.pending_disconnect), 'callbacks': len(m.callbacks),
-                'ack_counters': len(getattr(m, 'ack_counters', {})), 'environ': len(self.sio.environ),
-                'binary': len(self.sio._binary_packet)}
+        """growth of the object graph relative to the freshly built server (0 when indistinguishable)"""
+        return {'graph_growth': self.graph_slots() - self.fresh_slots}
 
     def close(self):
         if self.codec:
